@@ -569,11 +569,8 @@ func (e *Engine) NewTx(ctx context.Context, opts *TxOptions) (*SQLTx, error) {
 	// bypass catalog.load() entirely. Only cache when the caller did not
 	// mutate the schema (write transactions are never cached).
 	if opts.ReadOnly {
-		e.catalogMu.Lock()
-		if e.cachedCatalog == nil {
-			e.cachedCatalog = catalog
-		}
-		e.catalogMu.Unlock()
+		// not when a DDL was committed since this transaction opened: the catalog just loaded may be older than it
+		e.tryPopulateCatalogCache(catalog, openVersion)
 	}
 
 	return &SQLTx{
